@@ -854,6 +854,8 @@ mod schema_util;
 mod server;
 mod to_map;
 mod type_util;
+#[cfg(dropshot_verif)]
+pub mod verif_net;
 mod versioning;
 mod websocket;
 
